@@ -35,7 +35,12 @@ def gen_ops(rng, thorough):
         elif c < 0.48:
             ops.append(("mirror", rng.choice(["xy", "yz", "zx"])))
         elif c < 0.56:
-            ops.append(("set_pivot", rng.randint(-10, 10) / 2, rng.randint(-10, 10) / 2, rng.randint(-4, 4) / 2))
+            pv = [rng.randint(-10, 10) / 2, rng.randint(-10, 10) / 2, rng.randint(-4, 4) / 2]
+            if rng.random() < 0.4:
+                # pivots on an axis or in a coordinate plane: one or two coordinates exactly zero
+                for j in rng.sample(range(3), rng.choice([1, 2])):
+                    pv[j] = 0.0
+            ops.append(("set_pivot", pv[0], pv[1], pv[2]))
         elif c < 0.66:
             if rng.random() < 0.5:
                 n = rng.randint(1, 4)
@@ -272,7 +277,9 @@ def main():
               ("rotate", 90, "z"), ("exit_ctx", True), ("restore", None), ("restore", None)],
              [("translate", 3.0, 1.0, 0.0), ("save", 2), ("enter_named", 2), ("scale", [2.0]), ("exit_ctx", False), ("enter_named", 2),
               ("rotate", 45, "x"), ("exit_ctx", True), ("restore", 2)],
-             [("set_pivot", 5.0, 5.0, 0.0), ("rotate", 90, "z"), ("scale", [2.0, 3.0]), ("reflect", [1.0, 1.0, 0.0])]]
+             [("set_pivot", 5.0, 5.0, 0.0), ("rotate", 90, "z"), ("scale", [2.0, 3.0]), ("reflect", [1.0, 1.0, 0.0])],
+             [("set_pivot", 0.0, 0.0, 5.0), ("rotate", 90, "x"), ("scale", [2.0]), ("set_pivot", 0.0, 3.0, 0.0), ("rotate", 90, "z"), ("mirror", "xy")],
+             [("set_pivot", 4.0, 0.0, 0.0), ("rotate", 30, "y"), ("scale", [1.0, 1.0, 3.0]), ("reflect", [0.0, 0.0, 1.0])]]
     cases += [gen_ops(run.rng, run.thorough) for _ in range(n)]
     found = False
     dist = {}
